@@ -38,11 +38,12 @@ def install(it):
     it.contracts['extern.calc_vec_fxixi'] = vec(2)
 
 
-def series(dof, ox, oy, x_xi, y_eta, m, n, cname='c', scale=None):
-    """sum_j sum_i c[3(jm+i)+dof] * f_i^{(ox)}(xi) * g_j^{(oy)}(eta)  (inner loop over i, as in the kernels)"""
+def series(dof, ox, oy, x_xi, y_eta, m, n, cname='c', scale=None, num=3):
+    """sum_j sum_i c[num(jm+i)+dof] * f_i^{(ox)}(xi) * g_j^{(oy)}(eta)  (inner loop over i, as in the kernels);
+    num = 1: the w-only model, whose single degree of freedom is w"""
     i, j = integer('i'), integer('j')
-    d = 'uvw'[dof]
-    col = 3 * (j * m + i) + dof
+    d = 'uvw'[dof] if num == 3 else 'w'
+    col = num * (j * m + i) + (dof if num == 3 else 0)
     cidx = 'c[%s]' % normal(col).text()
     ATOM_DEPS[cidx] = {'i', 'j'} | deps_of(m)
     term = P.atom(cidx) * Fval(ox, i, S.flagset(d, 'x'), x_xi) * Fval(oy, j, S.flagset(d, 'y'), y_eta)
@@ -78,10 +79,10 @@ def cmp(led, name, func, code, spec, alt=None, sigs=None):
     return False
 
 
-def run_kernel(fname, build_args):
+def run_kernel(fname, build_args, mod=None):
     it = K.make_interp(counters=())
     install(it)
-    f = K.kernel_func(it, MOD, fname)
+    f = K.kernel_func(it, mod or MOD, fname)
     holder = {}
 
     def thunk():
@@ -139,6 +140,34 @@ def body(led):
             return [c, m, n, a, b, xs, ys, size, out] + fl, [out]
         it, res, outs = run_kernel(fname, args_w)
         check_point_stores(led, func, res, outs, [fname[2:] + '-slope'], [spec])
+    # ---- the w-only field module: cfw, cfwx, cfwy -------------------------------------------------------
+    MODW, FILEW = MOD + '_w', FILE.replace('.pyx', '_w.pyx')
+    for fname, spec in (('cfw', series(2, 0, 0, xi, eta, m, n, num=1)), ('cfwx', series(2, 1, 0, xi, eta, m, n, scale=sx, num=1)),
+                        ('cfwy', series(2, 0, 1, xi, eta, m, n, scale=sy, num=1))):
+        func = FILEW + ':' + fname
+        led.function(func)
+
+        def args_ww(it, fname=fname):
+            c, xs, ys = common(it)
+            fl = list(S.flagset('w', 'x')) + list(S.flagset('w', 'y'))
+            if fname == 'cfw':
+                outs = [OutArray(nm, size) for nm in ('us', 'vs', 'ws')]
+                return [c, m, n, a, b, xs, ys, size] + outs + fl, outs
+            out = OutArray('ws_', size)
+            return [c, m, n, a, b, xs, ys, size, out] + fl, [out]
+        it, res, outs = run_kernel(fname, args_ww, mod=MODW)
+        if fname == 'cfw':
+            # frame: the u and v outputs are left untouched (the wrapper returns its zeros for them)
+            for path, out in res:
+                if out[0] == 'return':
+                    extra = [arr.name for arr in out[1][:2] if stores_of(arr)]
+                    if extra:
+                        led.fail(func + '/frame', func, {'also writes': extra}, signature='frame')
+                    else:
+                        led.ok(func + '/frame', func)
+            check_point_stores(led, func, [(p_, (o[0], o[1][2:] if o[0] == 'return' else o[1])) for p_, o in res], outs[2:], ['w'], [spec])
+        else:
+            check_point_stores(led, func, res, outs, [fname[2:] + '-slope'], [spec])
     # ---- cfstrain ----------------------------------------------------------------------------------
     func = FILE + ':cfstrain'
     led.function(func)
